@@ -58,7 +58,7 @@ Section Detectors.
     | TScalar t => maxl (zero N) (map (fun x => abs N (sub N x t)) (col i w))
     | TList ts => maxl (zero N) (map (fun x => abs N (sub N x (nth i ts (zero N)))) (col i w))
     end.
-  Definition test_at (tg : target) (tol : E) (w : list (list E)) (i : nat) : bool := ltb N (change_at tg w i) tol.
+  Definition test_at (tg : target) (tol : E) (w : list (list E)) (i : nat) : bool := leb N (change_at tg w i) tol.
 
   Definition collapse_at (hist : list (list E)) (tg : target) (tol : E) (gens : option Z) (mask : mask_at)
     : res (list nat) :=
